@@ -1304,10 +1304,22 @@ func (vw *valWorld) checkC10() {
 		pos   int
 		value string
 	}
+	// when writes to one characteristic overlap in time, a notification may carry the value
+	// of the later write (it is read when the message is built): then events are counted
+	// per characteristic instead of per value
+	overlapping := map[int]bool{}
+	for _, wr := range vw.writes {
+		if vw.concurrentWrite(wr) {
+			overlapping[wr.pos] = true
+		}
+	}
 	groups := map[key][]*valWrite{}
 	var order []key
 	for _, wr := range vw.writes {
 		k := key{wr.pos, wr.value}
+		if overlapping[wr.pos] {
+			k.value = "*"
+		}
 		if _, ok := groups[k]; !ok {
 			order = append(order, k)
 		}
@@ -1318,7 +1330,7 @@ func (vw *valWorld) checkC10() {
 		for _, x := range conns {
 			n := 0
 			for _, ev := range vw.events {
-				if ev.conn == x && ev.pos == k.pos && ev.value == k.value {
+				if ev.conn == x && ev.pos == k.pos && (ev.value == k.value || k.value == "*") {
 					n++
 				}
 			}
@@ -1337,6 +1349,30 @@ func (vw *valWorld) checkC10() {
 				if must {
 					required++
 				}
+			}
+			if n > allowed || n < required {
+				var dbg []string
+				for _, wr := range groups[k] {
+					ch := vw.changes(wr)
+					must, mustNot := vw.expectation(x, wr, ch)
+					dbg = append(dbg, fmt.Sprintf("write by %s conn=%d [%d..%d] same=%v refused=%v changes=%d must=%v mustNot=%v", wr.origin, wr.conn, wr.inv, wr.ret, wr.same, wr.refused, ch, must, mustNot))
+				}
+				for _, so := range vw.subs {
+					if so.conn == x && so.pos == k.pos {
+						dbg = append(dbg, fmt.Sprintf("sub on=%v [%d..%d] accepted=%v", so.on, so.inv, so.ret, so.accepted))
+					}
+				}
+				for _, ev := range vw.events {
+					if ev.conn == x && ev.pos == k.pos {
+						dbg = append(dbg, fmt.Sprintf("event %s @%d", ev.value, ev.seq))
+					}
+				}
+				for _, wr := range vw.writes {
+					if wr.pos == k.pos && wr.value != k.value {
+						dbg = append(dbg, fmt.Sprintf("other write %s by %s [%d..%d]", wr.value, wr.origin, wr.inv, wr.ret))
+					}
+				}
+				vw.w.Sim.Logf("  C10 debug c%d %s=%s: %s", x, vc.name, k.value, strings.Join(dbg, " | "))
 			}
 			if n > allowed {
 				origin := ""
